@@ -142,6 +142,12 @@ def setRate (c : Cfg) (deal cur : String) (rate : Nat) : Option Cfg :=
     some { c with rates := c.rates.map (fun r => if r.deal = deal ∧ r.cur = cur then { r with rate := rate } else r) }
   else some { c with rates := c.rates ++ [⟨deal, cur, rate, 0, 0⟩] }
 
+/-- `TxDeleteRate` (caller = issuer): the first matching rate is removed; an unknown pair is not an
+    error -/
+def deleteRate (c : Cfg) (deal cur : String) : Option Cfg :=
+  if cur = c.symbol then none
+  else some { c with rates := c.rates.eraseP (fun r => r.deal = deal ∧ r.cur = cur) }
+
 /-- `TxSetLimits` (caller = issuer) -/
 def setLimits (c : Cfg) (deal cur : String) (mn mx : Nat) : Option Cfg :=
   if mn > mx ∧ mx > 0 then none
